@@ -37,7 +37,7 @@ struct Content {
     bool locks = false; bool analogGroupEmpty = false; int valueSet = 0; int gapWord = 10;
     // hooks used by the C12 pattern files
     std::function<uint32_t(int, int, int)> ptFn, anFn; std::vector<GParam> customParams; std::vector<uint32_t> eventTimes; bool haveRateBits = false; uint32_t rateBits = 0;
-    int lastOverride = -1; bool blankLabel = false; bool reservedNonZero = false;
+    int lastOverride = -1; bool blankLabel = false; bool reservedNonZero = false; bool longNames = false; int keyLabel = 0, firstKeyBlock = 0;
 };
 struct Layout {
     int zeros = 0; bool zeroPrologue = false; int paramBlock = 2; std::string order = "default"; std::string ids = "dense"; bool lastOffsetZero = false; bool lowerNames = false;
@@ -54,7 +54,7 @@ inline std::string ptLabel(int i) { const char* n[] = {"LASI", "RASI", "SACR", "
 inline std::string chLabel(int i) { const char* n[] = {"FX1", "EMG2", "MZ3", "CH4"}; return i < 4 ? n[i] : "C" + std::to_string(i); }
 
 inline std::vector<GGroup> buildGroups(const Content& c, const Layout& l) {
-    auto D = [&](const std::string& s) { if (c.descs == "none") return std::string(); if (c.descs == "d127") return std::string(127, 'd'); if (c.descs == "d128") return std::string(128, 'e'); if (c.descs == "d255") return std::string(255, 'f'); if (c.descs == "lower") return std::string("lower case Description"); return s; };
+    auto D = [&](const std::string& s) { if (c.descs == "none") return std::string(); if (c.descs == "d64") return std::string(64, 'c'); if (c.descs == "d127") return std::string(127, 'd'); if (c.descs == "d128") return std::string(128, 'e'); if (c.descs == "d255") return std::string(255, 'f'); if (c.descs == "lower") return std::string("lower case Description"); return s; };
     std::vector<GGroup> G;
     GGroup P; P.name = "POINT"; P.desc = D("3-D point parameters"); P.locked = c.locks;
     P.params.push_back(GParam::ints("USED", {}, {c.nPoints}, true, D("points used")));
@@ -93,6 +93,7 @@ inline std::vector<GGroup> buildGroups(const Content& c, const Layout& l) {
         if (c.extra == "int0") { E.params.push_back(GParam::ints("ONE", {1}, {42})); E.params.push_back(GParam::floats("FONE", {1}, {f2b(4.25f)})); }
         G.push_back(E);
     }
+    if (c.longNames && G.size() >= 3) { G[2].name = std::string(64, 'G'); for (size_t k = 0; k < G[2].params.size(); ++k) G[2].params[k].name = std::string(k % 2 ? 64 : 127, (char)('A' + (k % 26))) ; }
     // ids
     for (size_t i = 0; i < G.size(); ++i) G[i].id = (int)i + 1;
     if (l.ids == "sparse" && G.size() >= 3) G[2].id = 5;
@@ -134,7 +135,7 @@ inline std::string encode(const Content& c, const Layout& l) {
     std::string h; p8(h, l.paramBlock); p8(h, 0x50); p16(h, c.nPoints); p16(h, c.nChans * c.spf); p16(h, c.first); p16(h, c.lastOverride >= 0 ? c.lastOverride : c.first + c.nFrames - 1); p16(h, c.gapWord);
     p32(h, c.scaleBits); p16(h, dataBlock); p16(h, c.spf); p32(h, c.haveRateBits ? c.rateBits : f2b(c.pointRate));
     while (h.size() < 294) p8(h, c.reservedNonZero ? (int)(0x34 + h.size() * 7) : 0);   // reserved words 13..147
-    p16(h, 0); p16(h, 0); p16(h, 0x3039); p16(h, c.nEvents); p16(h, 0);
+    p16(h, c.keyLabel); p16(h, c.firstKeyBlock); p16(h, 0x3039); p16(h, c.nEvents); p16(h, 0);
     for (int i = 0; i < 18; ++i) p32(h, (size_t)i < c.eventTimes.size() ? c.eventTimes[(size_t)i] : i < c.nEvents ? f2b(0.5f + (float)i * 1.25f) : 0);
     for (int i = 0; i < 18; ++i) p8(h, i < c.nEvents ? (i % 2) : 0);
     p16(h, 0);
@@ -164,7 +165,9 @@ inline std::vector<Dim> dims(bool thorough) {
     d.push_back({"rates", {"100x2", "50x2", "29.97x2", "23.976x2", "0x1"}});
     d.push_back({"values", {"plain", "special"}});
     d.push_back({"extra", {"small", "none", "bytes", "dim3", "str1d", "empty", "int0", "all", "char0d"}});
-    d.push_back({"descs", {"short", "none", "lower", "d127", "d128", "d255"}});
+    d.push_back({"descs", {"short", "none", "lower", "d64", "d127", "d128", "d255"}});
+    d.push_back({"names", {"std", "long"}});
+    d.push_back({"hdrwords", {"std", "odd"}});
     d.push_back({"locks", {"no", "yes"}});
     d.push_back({"labels", {"equal", "fewer", "more", "blank"}});
     d.push_back({"alabels", {"equal", "fewer", "more"}});
@@ -190,6 +193,8 @@ inline bool apply(const Choice& ch, Content& c, Layout& l) {   // returns false 
     l.zeros = atoi(get("zeros", "0").c_str()); l.zeroPrologue = get("prologue", "0150") == "0000"; l.paramBlock = atoi(get("pblock", "2").c_str()); l.order = get("order", "default"); l.ids = get("ids", "dense");
     l.lastOffsetZero = get("lastoff", "ptr") == "zero";
     c.reservedNonZero = get("reserved", "zero") == "nonzero";
+    c.longNames = get("names", "std") == "long"; if (c.longNames && c.extra == "none") return false;
+    if (get("hdrwords", "std") == "odd") { c.gapWord = 65535; c.keyLabel = 12345; c.firstKeyBlock = 7; c.scaleBits = 0xBE800000u; }
     c.analogGroupEmpty = get("agroup", "full") == "empty"; if (c.analogGroupEmpty) { if (ch.count("chans") && ch.at("chans") != "0") return false; c.nChans = 0; if (ch.count("alabels")) return false; }
     if (c.nChans == 0) { c.spf = ch.count("spf") ? c.spf : 2; }
     if (l.ids == "sparse" && c.extra == "none") return false;
